@@ -6,6 +6,6 @@ S=/verif/seeded/$1; shift
 if [ -n "$(git -C /repo status --porcelain)" ]; then echo "/repo not clean"; exit 2; fi
 git -C /repo apply $S/patch.diff || exit 3
 for P in "$@"; do
-  /verif/bin/gzcheck -prop $P -no-evidence 2>&1 | grep -v '^VIOLATION' | tail -${TAILN:-4} | cut -c1-400
+  ${GZ:-/verif/bin/gzcheck} -prop $P -no-evidence 2>&1 | grep -v '^VIOLATION' | tail -${TAILN:-4} | cut -c1-400
 done
 git -C /repo checkout -- .
